@@ -18,11 +18,22 @@ Conventions
   * User code that `onMessage` runs synchronously (event handlers, `on_progress`) takes its behaviour from the
     script `beh : List HAct` carried by the event: the i-th invocation performs `beh[i]` (default: returns).
   * Every place where the Python raises is an explicit `SOut.raise_`; the state changes made before the raise stay.
+  * EVENT dispatch iterates over a snapshot of the handler list and skips handlers detached meanwhile; every handler
+    gets its own kwargs dict (the code after the F8/F9 repairs).
   * Request tables are association lists in insertion order. Assigning an id that is already present re-appends
     it (a Python dict keeps the old position); this is only reachable after 2^53 requests and only affects the
     order in which a session end fails the outstanding requests.
-Lifecycle (open/join/welcome/goodbye/closed), INVOCATION and INTERRUPT are modelled only as far as C04/C11 need
-them (marked STUB): the C06/C10 builders refine these branches.
+  * Lifecycle (C06): `onOpen`, `join`, the pre-session branch (WELCOME / ABORT / CHALLENGE), GOODBYE, `leave`,
+    `disconnect`, `onClose`, `_errback_outstanding_requests`, the default `onLeave` / `onDisconnect`. Every user hook
+    takes its behaviour from an `HAct` (runs the default body or not, makes API calls, returns a value or raises).
+  * Callee side (C10): INVOCATION → endpoint → `success` / `error` → YIELD / ERROR with the `send()` failure fallback,
+    progressive results, INTERRUPT, pending results resolved later. The outcome of `ITransport.send` on a reply path
+    is the head of the injected plan `Sess.faults` (the mock transport), or the transport's classification table.
+  * What `txaio.add_callbacks` hangs on an already fired Deferred/Future runs at once on Twisted and at the next loop
+    iteration on asyncio. Where such a continuation reads or writes the session it is queued as `SOut.later k`
+    (`Cont`), not as a finished output; `tick` is one loop iteration, `pump` runs the loop until it is idle.
+  * An exception that ends in an unhandled Deferred failure / the loop's exception handler is `SOut.lost` (not
+    observable by the harness; nothing is sent).
 -/
 namespace Abverif.Session
 open Abverif.SessCodes
@@ -74,12 +85,17 @@ deriving DecidableEq, Repr
 inductive Exc
   | protocolError      -- autobahn.wamp.exception.ProtocolError
   | transportLost      -- autobahn.wamp.exception.TransportLost
-  | typeError          -- TypeError (F10)
-  | attributeError     -- AttributeError (`call_request.options` is None)
+  | typeError          -- TypeError
+  | attributeError     -- AttributeError (`self._transport` is None)
   | exception          -- plain `Exception(...)` ("subscription no longer active", "session already joined", …)
   | alreadyCalled      -- AlreadyCalledError / InvalidStateError: a second completion of a Deferred/Future
   | sendFailed         -- whatever `ITransport.send` raised
   | internal           -- a branch the Python cannot reach (record without future)
+  | keyError           -- `del self._invocations[id]` a second time
+  | assertionError     -- `message.Error(...)` refuses what `_message_from_exception` hands it
+  | serializationError -- autobahn.wamp.exception.SerializationError
+  | payloadExceeded    -- autobahn.exception.PayloadExceededError
+  | other              -- any other class out of `ITransport.send` (ValueError, Disconnected, TypeError, …)
 deriving DecidableEq, Repr
 
 /-! ### options → wire attributes (types.py `*.message_attr()` as seen through `marshal()`) -/
@@ -90,7 +106,7 @@ deriving DecidableEq, Repr
 inductive Attr
   | acknowledge | excludeMe | exclude | excludeAuthid | excludeAuthrole | eligible | eligibleAuthid
   | eligibleAuthrole | retain | transactionHash | forwardFor | timeout | receiveProgress | caller
-  | callerAuthid | callerAuthrole | match_ | getRetained | invoke | concurrency | forceReregister
+  | callerAuthid | callerAuthrole | match_ | getRetained | invoke | concurrency | forceReregister | progress
 deriving DecidableEq, Repr
 
 abbrev Attrs := List (Attr × OVal)
@@ -189,10 +205,11 @@ def optAttrs {α : Type} (f : α → Attrs) : Option α → Attrs
 /-! ### messages -/
 
 inductive MsgType | hello | goodbye | call | cancel | publish | subscribe | unsubscribe | register | unregister
+  | abort | authenticate | yield_ | error
 deriving DecidableEq, Repr
 
 /-- a message handed to `ITransport.send`, as `marshal()` shows it (`uri` is the subscription/registration id
-for UNSUBSCRIBE/UNREGISTER) -/
+for UNSUBSCRIBE/UNREGISTER, the error URI for ERROR; ERROR is always `ERROR(INVOCATION, req, …)`) -/
 structure OutMsg where
   typ : MsgType
   req : ReqId := 0
@@ -219,7 +236,7 @@ inductive InMsg
   | registered (req : ReqId) (reg : RegId)
   | unregistered (req : ReqId) (reg : Option RegId)
   | event (sub : SubId) (publication : Nat) (p : Payload)
-  | invocation (req : ReqId) (reg : RegId) (p : Payload)
+  | invocation (req : ReqId) (reg : RegId) (p : Payload) (receiveProgress : Bool)
   | interrupt (req : ReqId)
   | abort
   | challenge
@@ -243,17 +260,122 @@ inductive Outcome
   | value (v : RVal)
   | error (uri : Uri) (args : Args) (kwargs : Kwargs)   -- exception built from an ERROR message (C18 refines)
   | cancelled                                            -- the user cancelled the Deferred/Future
-  | closed (reason : Nat)                                -- STUB: session end (0 GOODBYE reason, 1 transport lost)
+  | closed (reason : Nat)                                -- session end: 0 GOODBYE, 1 transport lost, 2 router ABORT, 3 own ABORT
 deriving DecidableEq, Repr
 
 /-- value under a keyword of a handler call: a payload value or the `EventDetails` built for handler `obj` -/
 inductive KwVal | v (x : Val) | details (obj : FutId)
+  | callDetails (obj : FutId) (progress : Bool)   -- `CallDetails(registration, progress=<callable or None>)`
 deriving DecidableEq, Repr
 
 /-- how `on_progress` is called -/
 inductive Prog
   | plain (args : Args) (kwargs : Kwargs)        -- `on_progress(*args, **kw)`
   | result (args : Args) (kwargs : Kwargs)       -- `on_progress(CallResult(*args, **kwargs))` (`details=True`)
+deriving DecidableEq, Repr
+
+/-! ### what user code does -/
+
+/-- outcome of `ITransport.send` on a reply path (YIELD / ERROR of an invocation) -/
+inductive SendOut | ok | serialization | payloadExceeded | transportLost | other
+deriving DecidableEq, Repr
+
+def SendOut.exc : SendOut → Exc
+  | .ok => .other
+  | .serialization => .serializationError
+  | .payloadExceeded => .payloadExceeded
+  | .transportLost => .transportLost
+  | .other => .other
+
+/-- the overridable callbacks of `ISession` -/
+inductive Hook | onConnect | onJoin | onLeave | onDisconnect | onChallenge | onWelcome
+deriving DecidableEq, Repr
+
+/-- the observer events of `session.on(...)` -/
+inductive ObsEv | connect | join | ready | leave | disconnect
+deriving DecidableEq, Repr
+
+/-- what a piece of user code returns (`pending`: a Deferred/Future that is completed later) -/
+inductive Ret | unit | val (v : Val) | callResult (args : Args) (kwargs : Kwargs) | pending
+deriving DecidableEq, Repr
+
+/-- what a piece of user code raises, as far as `_message_from_exception` tells the classes apart -/
+inductive ExcK
+  | appError (uri : Uri) (args : Args) (kwargs : Kwargs)   -- `ApplicationError(uri, *args, **kwargs)`
+  | mapped (uri : Uri) (args : Args)                       -- a class registered with `session.define`
+  | runtime (args : Args)                                  -- any other class: `wamp.error.runtime_error`
+  | unbuildable                                            -- `message.Error(...)` refuses its `args`/`kwargs`
+  | cancelled                                              -- CancelledError (INTERRUPT)
+  | sendExc                                                -- what a failing `details.progress(...)` raised
+deriving DecidableEq, Repr
+
+/-- error URIs the session itself names (tokens outside the range user URIs are drawn from) -/
+def uRuntimeError : Uri := 900
+def uInvalidPayload : Uri := 901
+def uPayloadExceeded : Uri := 902
+/-- the payload value that stands for Python's `None` -/
+def noneVal : Val := 0
+
+/-- the ERROR `_message_from_exception` builds (`none`: building it raises) -/
+def ExcK.toError : ExcK → Option (Uri × Args × Kwargs)
+  | .appError u a k => some (u, a, k)
+  | .mapped u a => some (u, a, [])
+  | .runtime a => some (uRuntimeError, a, [])
+  | .unbuildable => none
+  | .cancelled => some (uRuntimeError, [], [])
+  | .sendExc => some (uRuntimeError, [], [])
+
+/-! ### API calls (the vocabulary; semantics below) -/
+
+inductive Api
+  | call (uri : Uri) (args : Args) (kwargs : Kwargs) (opts : Option CallOpts) (snd : SendRes)
+  | publish (uri : Uri) (args : Args) (kwargs : Kwargs) (opts : Option PubOpts) (snd : SendRes)
+  | subscribe (h : HId) (topic : Uri) (opts : Option SubOpts) (snd : SendRes)
+  | register (h : HId) (proc : Uri) (opts : Option RegOpts) (snd : SendRes)
+  | unsubscribe (obj : FutId) (snd : SendRes)      -- `Subscription.unsubscribe()` on the result of future `obj`
+  | unregister (obj : FutId) (snd : SendRes)       -- `Registration.unregister()`
+  | cancel (f : FutId)                             -- the user cancels a returned Deferred/Future
+  | join
+  | leave
+  | disconnect
+deriving DecidableEq, Repr
+
+inductive HCall
+  | api (a : Api)
+  | unsubSelf                 -- the running event handler unsubscribes its own `Subscription`
+deriving DecidableEq, Repr
+
+/-- behaviour of one invocation of user code (event handler, `on_progress`, lifecycle hook, endpoint):
+`dflt` — a lifecycle hook override calls the default body first; `progress` — an endpoint calls `details.progress`
+(when it got one); `calls` — the API calls it makes (each guarded by the user's own `try/except`); then it returns
+`ret` or, if `raises`, raises `exc`. -/
+structure HAct where
+  calls : List HCall := []
+  raises : Bool := false
+  dflt : Bool := true
+  ret : Ret := .unit
+  exc : ExcK := .runtime []
+  progress : List Val := []
+deriving DecidableEq, Repr
+
+/-! ### continuations hung on an already completed Deferred/Future -/
+
+inductive WRes | ok | deny | raised      -- `onWelcome` returned None / something else / raised
+deriving DecidableEq, Repr
+inductive CRes | sig | none_ | raised    -- `onChallenge` returned a signature / None / raised
+deriving DecidableEq, Repr
+
+/-- what an endpoint's result future completes with -/
+inductive EOut | value (args : Args) (kwargs : Kwargs) | raised (e : ExcK)
+deriving DecidableEq, Repr
+
+inductive Cont
+  | closeIfTransport                                   -- default `onLeave`: `if self._transport: self.disconnect()`
+  | welcome2 (onJoin : HAct)                           -- `onJoin`, then 'ready'
+  | connect (onConnect : HAct)                         -- `onOpen`: `as_future(self.onConnect)`
+  | welcome1 (sid : Nat) (res : WRes) (onJoin : HAct)  -- WELCOME: the `success`/`error` pair behind `onWelcome`
+  | challenge1 (res : CRes) (onLeave : HAct)           -- CHALLENGE: the `success`/`error` pair behind `onChallenge`
+  | invDone (req : ReqId) (o : EOut)                   -- INVOCATION: the `success`/`error` pair behind the endpoint
 deriving DecidableEq, Repr
 
 inductive SOut
@@ -268,7 +390,13 @@ inductive SOut
   | caught (e : Exc)                        -- an API call made from inside user code raised `e` to that code
   | raise_ (e : Exc)                        -- `e` left the entry point (API call or `onMessage`)
   | transportClose                          -- `self._transport.close()`
-  | unmodelled                              -- STUB branch
+  | unmodelled                              -- a branch outside the model
+  | hook (h : Hook) (arg : Nat)             -- a lifecycle callback was called (`arg`: close reason of `onLeave`)
+  | fire (e : ObsEv)                        -- the observers of `e` were notified
+  | endpoint (req : ReqId) (obj : FutId) (h : HId) (args : Args) (kwargs : List (Key × KwVal))   -- endpoint called
+  | sendFail (m : OutMsg) (f : SendOut)     -- `self._transport.send(m)` was called and raised `f` (nothing written)
+  | lost (e : Exc)                          -- `e` ended in an unhandled Deferred failure / the loop's handler
+  | later (k : Cont)                        -- queue only: a continuation waiting for the next loop iteration
 deriving DecidableEq, Repr
 
 /-! ### state -/
@@ -309,6 +437,17 @@ structure RegRec where
   detailsArg : Option Key
 deriving DecidableEq, Repr
 
+/-- the endpoint's result future of a running invocation: still pending, or completed/cancelled (its callback has
+been scheduled) -/
+inductive IState | pending | fired
+deriving DecidableEq, Repr
+
+/-- `InvocationRequest` in `_invocations[id]` -/
+structure InvRec where
+  reg : RegId
+  st : IState
+deriving DecidableEq, Repr
+
 structure Sess where
   mode : Sched
   transport : Bool := false           -- `self._transport is not None`
@@ -324,7 +463,9 @@ structure Sess where
   tUnregister : Table := []
   subs : List (SubId × List SubRec) := []
   regs : List (RegId × RegRec) := []
-  invs : List (ReqId × FutId) := []   -- STUB
+  invs : List (ReqId × InvRec) := []  -- `_invocations`
+  faults : List SendOut := []         -- environment: outcomes of the next `send()` calls on reply paths (empty = ok)
+  progs : List ReqId := []            -- ghost: invocations that were handed a `details.progress` callable
   futs : List Fut := []
   cbq : List SOut := []               -- deferred mode: callbacks waiting for the next loop iteration
 deriving DecidableEq, Repr
@@ -378,17 +519,6 @@ def settle (s : Sess) (f : FutId) (o : Outcome) : Sess × List SOut :=
 
 /-! ## API calls -/
 
-inductive Api
-  | call (uri : Uri) (args : Args) (kwargs : Kwargs) (opts : Option CallOpts) (snd : SendRes)
-  | publish (uri : Uri) (args : Args) (kwargs : Kwargs) (opts : Option PubOpts) (snd : SendRes)
-  | subscribe (h : HId) (topic : Uri) (opts : Option SubOpts) (snd : SendRes)
-  | register (h : HId) (proc : Uri) (opts : Option RegOpts) (snd : SendRes)
-  | unsubscribe (obj : FutId) (snd : SendRes)      -- `Subscription.unsubscribe()` on the result of future `obj`
-  | unregister (obj : FutId) (snd : SendRes)       -- `Registration.unregister()`
-  | cancel (f : FutId)                             -- the user cancels a returned Deferred/Future
-  | join                                           -- STUB
-  | leave                                          -- STUB
-deriving DecidableEq, Repr
 
 /-- the tail common to all request APIs: `self._transport.send(msg)` and `return on_reply`; `keep = false` is the
 `except: del self._xxx_reqs[request_id]; raise` of `call` and `publish` -/
@@ -532,17 +662,22 @@ def apiCancel (s : Sess) (f : FutId) : Sess × List SOut :=
     if !(cancelMsgs s f x.kind).isEmpty && !s.transport then (s, [.unmodelled]) else
     cancelDo s f x (cancelMsgs s f x.kind)
 
-/-- STUB `join()` -/
+/-- `join()` -/
 def apiJoin (s : Sess) : Sess × List SOut :=
-  if s.sessionId.isSome then (s, [.raise_ .exception]) else
-  if !s.transport then (s, [.raise_ .exception]) else
+  if s.sessionId.isSome then (s, [.raise_ .exception]) else        -- "session already joined"
+  if !s.transport then (s, [.raise_ .exception]) else              -- "no transport set for session"
   ({ s with goodbyeSent := false }, [.send { typ := .hello }])
 
-/-- STUB `leave()` -/
+/-- `leave()` -/
 def apiLeave (s : Sess) : Sess × List SOut :=
-  if s.sessionId.isNone then (s, []) else
-  if s.goodbyeSent then (s, []) else
+  if s.sessionId.isNone then (s, []) else                          -- "no session to leave"
+  if s.goodbyeSent then (s, []) else                               -- "not sending GOODBYE again"
+  if !s.transport then (s, [.raise_ .attributeError]) else         -- `self._transport.send` on None
   ({ s with goodbyeSent := true }, [.send { typ := .goodbye }])
+
+/-- `disconnect()` -/
+def apiDisconnect (s : Sess) : Sess × List SOut :=
+  if s.transport then (s, [.transportClose]) else (s, [])
 
 def apiStep (s : Sess) : Api → Sess × List SOut
   | .call u a k o r => apiCall s u a k o r
@@ -554,20 +689,9 @@ def apiStep (s : Sess) : Api → Sess × List SOut
   | .cancel f => apiCancel s f
   | .join => apiJoin s
   | .leave => apiLeave s
+  | .disconnect => apiDisconnect s
 
 /-! ## user code run from `onMessage` -/
-
-inductive HCall
-  | api (a : Api)
-  | unsubSelf                 -- the running event handler unsubscribes its own `Subscription`
-deriving DecidableEq, Repr
-
-/-- behaviour of one invocation of user code: the API calls it makes (each guarded by the user's own
-`try/except`), then it returns or raises -/
-structure HAct where
-  calls : List HCall := []
-  raises : Bool := false
-deriving DecidableEq, Repr
 
 def toCaught : SOut → SOut
   | .raise_ e => .caught e
@@ -606,20 +730,17 @@ def handlerKw (r : SubRec) (kw : List (Key × KwVal)) : List (Key × KwVal) :=
   | none => kw
   | some k => insertKw k (.details r.obj) kw
 
-/-- the EVENT loop `for subscription in self._subscriptions[msg.subscription]:` — the list is the live one
-(cursor `idx` into the list as it is *now*, F9) and `kw` is the message's own kwargs dict, which
-`invoke_kwargs = msg.kwargs if msg.kwargs else dict()` aliases whenever it is non-empty (F8). -/
-def dispatch : Nat → Sess → SubId → Nat → Args → List (Key × KwVal) → List HAct → Sess × List SOut
-  | 0, s, _, _, _, _, _ => (s, [])
-  | fuel + 1, s, sub, idx, args, kw, beh =>
-    match (alookup sub s.subs).bind (·[idx]?) with
-    | none => (s, [])
-    | some r =>
-      let ik := handlerKw r kw
-      let kw' := if kw.isEmpty then kw else ik
+/-- the EVENT loop `for subscription in list(self._subscriptions[msg.subscription]): if not subscription.active:
+continue …` — over a snapshot of the handler list taken at arrival; a `Subscription` is active iff it is (still)
+attached under its id; each handler gets its own copy of the message's kwargs (`dict(msg.kwargs)`). -/
+def dispatch (s : Sess) (sub : SubId) (args : Args) (kw : List (Key × KwVal)) : List SubRec → List HAct → Sess × List SOut
+  | [], _ => (s, [])
+  | r :: rest, beh =>
+    if ((alookup sub s.subs).getD []).any (·.obj == r.obj) then
       let r1 := runAct s (some r.obj) (beh.headD {})
-      let r2 := dispatch fuel r1.1 sub (idx + 1) args kw' beh.tail
-      (r2.1, .invoke r.obj r.h args ik :: r1.2 ++ r2.2)
+      let r2 := dispatch r1.1 sub args kw rest beh.tail
+      (r2.1, .invoke r.obj r.h args (handlerKw r kw) :: r1.2 ++ r2.2)
+    else dispatch s sub args kw rest beh
 
 def kwOfPayload (p : Payload) : List (Key × KwVal) := (p.kwargs.getD []).map (fun e => (e.1, KwVal.v e.2))
 
@@ -640,13 +761,193 @@ def Sess.clearTables (s : Sess) : Sess :=
 def Sess.outstanding (s : Sess) : List FutId :=
   (Kind.all.flatMap (fun k => s.tbl k)).map (·.2.fut)
 
-/-- STUB default `onLeave`: fail what is outstanding, then `disconnect()` -/
+/-! ### lifecycle: hooks, the default bodies, continuations -/
+
+def isRaise : SOut → Bool
+  | .raise_ _ => true
+  | _ => false
+
+def toLost : SOut → SOut
+  | .raise_ e => .lost e
+  | o => o
+
+/-- a lifecycle callback as `txaio.as_future` calls it: the override runs the default body (`super()`) if it wants
+to, then makes its own calls. A raise of the default body leaves through the override into the result future and is
+`lost` (the rest of the override does not run). What the override itself raises (`act.raises`) is handled by the
+errback the caller hangs on that future. -/
+def runHook (s : Sess) (h : Hook) (arg : Nat) (act : HAct) (body : Sess → Sess × List SOut) : Sess × List SOut :=
+  let r1 := if act.dflt then body s else (s, [])
+  if r1.2.any isRaise then (r1.1, .hook h arg :: r1.2.map toLost)
+  else
+    let r2 := runCalls r1.1 none act.calls
+    (r2.1, .hook h arg :: r1.2 ++ r2.2)
+
+/-- continuations that start nothing further -/
+def runLeaf (s : Sess) : Cont → Sess × List SOut
+  | .closeIfTransport => if s.transport then (s, [.transportClose]) else (s, [])
+  | .welcome2 act =>
+    -- `onJoin`; its failure is swallowed on Twisted ("While firing onJoin") and dropped on asyncio; then 'ready'
+    let r1 := runHook s .onJoin 0 act (fun s => (s, []))
+    let e : List SOut :=
+      if act.raises then (match s.mode with | .sync => [.userError] | .deferred => [.lost .exception]) else []
+    (r1.1, r1.2 ++ e ++ [.fire .ready])
+  | _ => (s, [.unmodelled])
+
+/-- hang a continuation on an already fired Deferred/Future: now (Twisted) or at the next loop iteration (asyncio) -/
+def deferLeaf (s : Sess) (k : Cont) : Sess × List SOut :=
+  match s.mode with
+  | .sync => runLeaf s k
+  | .deferred => ({ s with cbq := s.cbq ++ [.later k] }, [])
+
+/-- default `onLeave`: fail what is outstanding (`_errback_outstanding_requests`), then `disconnect()` if a
+transport is (still) there -/
 def onLeaveDefault (s : Sess) (reason : Nat) : Sess × List SOut :=
   let r1 := rejectList s.clearTables (.closed reason) s.outstanding
-  if r1.1.transport then
-    let r2 := emitCb r1.1 .transportClose
+  let r2 := deferLeaf r1.1 .closeIfTransport
+  (r2.1, r1.2 ++ r2.2)
+
+/-- default `onDisconnect`: the backstop — fail what is *still* outstanding with TransportLost -/
+def onDisconnectDefault (s : Sess) : Sess × List SOut :=
+  rejectList s.clearTables (.closed 1) s.outstanding
+
+/-- `d = as_future(self.onLeave, details)` with `success` (fire 'leave') / `_error` (swallow) hung on it -/
+def leaveHook (s : Sess) (reason : Nat) (act : HAct) : Sess × List SOut :=
+  let r1 := runHook s .onLeave reason act (fun s => onLeaveDefault s reason)
+  let r2 := emitCb r1.1 (if act.raises then .userError else .fire .leave)
+  (r2.1, r1.2 ++ r2.2)
+
+def disconnectHook (s : Sess) (act : HAct) : Sess × List SOut :=
+  let r1 := runHook s .onDisconnect 0 act onDisconnectDefault
+  let r2 := emitCb r1.1 (if act.raises then .userError else .fire .disconnect)
+  (r2.1, r1.2 ++ r2.2)
+
+/-- `onClose(wasClean)`; `acts = [onLeave, onDisconnect]` -/
+def onClose (s : Sess) (acts : List HAct) : Sess × List SOut :=
+  let s := { s with transport := false }
+  match s.sessionId with
+  | some _ =>
+    -- `_session_id` is cleared only after `onLeave` has been called
+    let r1 := leaveHook s 1 (acts.headD {})
+    let r2 := disconnectHook { r1.1 with sessionId := none } (acts.tail.headD {})
     (r2.1, r1.2 ++ r2.2)
-  else r1
+  | none => disconnectHook s (acts.tail.headD {})
+
+/-! ### callee side: replies of an invocation -/
+
+/-- `self._transport.send(m)` on a reply path: the outcome is the head of the injected plan -/
+def replySend (s : Sess) (m : OutMsg) : Sess × List SOut × SendOut :=
+  match s.faults with
+  | [] => (s, [.send m], .ok)
+  | .ok :: r => ({ s with faults := r }, [.send m], .ok)
+  | f :: r => ({ s with faults := r }, [.sendFail m f], f)
+
+/-- the ERROR the `except SerializationError` / `except PayloadExceededError` clauses answer with -/
+def fallbackUri : SendOut → Option Uri
+  | .serialization => some uInvalidPayload
+  | .payloadExceeded => some uPayloadExceeded
+  | _ => none
+
+/-- `try: send(reply) except SerializationError: send(ERROR) except PayloadExceededError: send(ERROR)`; any other
+class leaves the `success`/`error` closure (and a failure of the fallback `send` does, too) -/
+def sendWithFallback (s : Sess) (req : ReqId) (m : OutMsg) : Sess × List SOut :=
+  let r1 := replySend s m
+  if r1.2.2 = .ok then (r1.1, r1.2.1) else
+  match fallbackUri r1.2.2 with
+  | none => (r1.1, r1.2.1 ++ [.lost r1.2.2.exc])
+  | some u =>
+    let r2 := replySend r1.1 { typ := .error, req := req, uri := u }
+    (r2.1, r1.2.1 ++ r2.2.1 ++ (if r2.2.2 = .ok then [] else [.lost r2.2.2.exc]))
+
+/-- the `success(res)` / `error(err)` closures of the INVOCATION branch. (On asyncio a raise out of `success` is
+routed to `error`, whose `del self._invocations[…]` then raises KeyError: nothing more is sent either way.) -/
+def invDone (s : Sess) (req : ReqId) (o : EOut) : Sess × List SOut :=
+  match alookup req s.invs with
+  | none => (s, [.lost .keyError])
+  | some _ =>
+    let s := { s with invs := adel req s.invs }
+    match o with
+    | .value a k =>
+      if !s.transport then (s, [])           -- "Skipping result … because transport disconnected"
+      else sendWithFallback s req { typ := .yield_, req := req, args := a, kwargs := k }
+    | .raised e =>
+      match e.toError with
+      | none => (s, [.userError, .lost .assertionError])
+      | some (u, a, k) =>
+        if !s.transport then (s, [.userError, .lost .attributeError]) else
+        let r := sendWithFallback s req { typ := .error, req := req, uri := u, args := a, kwargs := k }
+        (r.1, .userError :: r.2)
+
+/-- `details.progress(v)` -/
+def progressSend (s : Sess) (req : ReqId) (v : Val) : Sess × List SOut × SendOut :=
+  replySend s { typ := .yield_, req := req, opts := [(.progress, .b true)], args := [v] }
+
+/-- the progress calls an endpoint makes; the first one that raises ends the endpoint -/
+def progressLoop (s : Sess) (req : ReqId) : List Val → Sess × List SOut × Bool
+  | [] => (s, [], false)
+  | v :: vs =>
+    if !s.transport then (s, [], true) else      -- `self._transport.send` on None
+    let r := progressSend s req v
+    if r.2.2 = .ok then
+      let r2 := progressLoop r.1 req vs
+      (r2.1, r.2.1 ++ r2.2.1, r2.2.2)
+    else (r.1, r.2.1, true)
+
+def retOut : Ret → EOut
+  | .unit => .value [noneVal] []
+  | .val v => .value [v] []
+  | .callResult a k => .value a k
+  | .pending => .value [noneVal] []
+
+/-- the CHALLENGE `error` closure: onUserError, ABORT, `onLeave`, 'leave' -/
+def challengeFail (s : Sess) (lact : HAct) : Sess × List SOut :=
+  if !s.transport then (s, [.userError, .lost .attributeError]) else
+  let r := leaveHook s 3 lact
+  (r.1, [.userError, .send { typ := .abort }] ++ r.2)
+
+def runCont (s : Sess) : Cont → Sess × List SOut
+  | .connect act =>
+    -- default `onConnect` = `join(realm)`; whatever it raises is dropped with the result future
+    runHook s .onConnect 0 act apiJoin
+  | .welcome1 sid res jact =>
+    match res with
+    | .deny => if s.transport then (s, [.send { typ := .abort }]) else (s, [.lost .attributeError])
+    | .raised => if s.transport then (s, [.send { typ := .abort }, .userError]) else (s, [.lost .attributeError])
+    | .ok =>
+      -- the session id is assigned before `self._transport` is touched
+      let s1 := { s with sessionId := some sid }
+      if !s.transport then (s1, [.lost .attributeError]) else
+      let r := deferLeaf s1 (.welcome2 jact)
+      (r.1, .fire .join :: r.2)
+  | .challenge1 res lact =>
+    match res with
+    | .sig =>
+      if s.transport then (s, [.send { typ := .authenticate }]) else
+      (match s.mode with | .sync => (s, [.lost .attributeError]) | .deferred => challengeFail s lact)
+    | .none_ =>
+      -- "onChallenge user callback did not return a signature": raised inside `success`
+      (match s.mode with | .sync => (s, [.lost .exception]) | .deferred => challengeFail s lact)
+    | .raised => challengeFail s lact
+  | .invDone req o => invDone s req o
+  | k => runLeaf s k
+
+def defer (s : Sess) (k : Cont) : Sess × List SOut :=
+  match s.mode with
+  | .sync => runCont s k
+  | .deferred => ({ s with cbq := s.cbq ++ [.later k] }, [])
+
+/-- user code completes / fails / cancels the pending result future of invocation `req` -/
+def settleInv (s : Sess) (req : ReqId) (o : EOut) : Sess × List SOut :=
+  match alookup req s.invs with
+  | none => (s, [])
+  | some r =>
+    match r.st with
+    | .fired => (s, [])
+    | .pending => defer { s with invs := aupd req { r with st := .fired } s.invs } (.invDone req o)
+
+/-- `onOpen(transport)`; `acts = [onConnect]` -/
+def onOpen (s : Sess) (acts : List HAct) : Sess × List SOut :=
+  let r := defer { s with transport := true } (.connect (acts.headD {}))
+  (r.1, .fire .connect :: r.2)
 
 /-- the value a final RESULT resolves the call with -/
 def resultValue (details : Bool) (p : Payload) : RVal :=
@@ -673,16 +974,45 @@ def errorKind (s : Sess) (reqType : Nat) (id : ReqId) : Option Kind :=
   [Kind.call, .publish, .subscribe, .unsubscribe, .register, .unregister].find?
     (fun k => k.code == reqType && (alookup id (s.tbl k)).isSome)
 
+/-- the INVOCATION branch: protocol checks, the endpoint call (with `details.progress` if asked for), the
+`InvocationRequest` record, and the `success`/`error` pair hung on the endpoint's result -/
+def onInvocation (s : Sess) (beh : List HAct) (req : ReqId) (reg : RegId) (p : Payload) (rp : Bool) : Sess × List SOut :=
+  if (alookup req s.invs).isSome then (s, [.raise_ .protocolError])       -- "already invoked"
+  else match alookup reg s.regs with
+  | none => (s, [.raise_ .protocolError])                                  -- "non-registered registration ID"
+  | some g =>
+    let a := beh.headD {}
+    -- `details.progress` exists iff the endpoint takes details and the caller asked for progressive results
+    let hasProg := g.detailsArg.isSome && rp
+    let kw := match g.detailsArg with
+      | none => kwOfPayload p
+      | some k => insertKw k (.callDetails g.obj hasProg) (kwOfPayload p)
+    let s0 : Sess := if hasProg then { s with progs := req :: s.progs } else s
+    -- the endpoint runs: progress calls, API calls, then it returns or raises
+    let r1 := progressLoop s0 req (if hasProg then a.progress else [])
+    let r2 := if r1.2.2 then (r1.1, []) else runCalls r1.1 none a.calls
+    let outcome : Option EOut :=
+      if r1.2.2 then some (.raised .sendExc)
+      else if a.raises then some (.raised a.exc)
+      else if a.ret = .pending then none else some (retOut a.ret)
+    let s3 : Sess := { r2.1 with invs := aset req { reg := reg, st := if outcome.isSome then .fired else .pending } r2.1.invs }
+    let r4 := match outcome with
+      | some o => defer s3 (.invDone req o)
+      | none => (s3, [])
+    (r4.1, .endpoint req g.obj g.endpoint (p.args.getD []) kw :: r1.2.1 ++ r2.2 ++ r4.2)
+
 def onEstablished (s : Sess) (beh : List HAct) : InMsg → Sess × List SOut
   | .goodbye =>
-    -- STUB (C06): reply unless we initiated, end the session, run the default onLeave
+    -- reply unless this side initiated (`self._transport.send` on None raises before anything changes);
+    -- the session is over; `onLeave`, then 'leave'
+    if !s.goodbyeSent && !s.transport then (s, [.raise_ .attributeError]) else
     let out := if s.goodbyeSent then [] else [SOut.send { typ := .goodbye }]
-    let r := onLeaveDefault { s with sessionId := none } 0
+    let r := leaveHook { s with sessionId := none } 0 (beh.headD {})
     (r.1, out ++ r.2)
   | .event sub _ p =>
     match alookup sub s.subs with
     | none => (s, [.raise_ .protocolError])
-    | some l => dispatch l.length s sub 0 (p.args.getD []) (kwOfPayload p) beh
+    | some l => dispatch s sub (p.args.getD []) (kwOfPayload p) l beh
   | .published id pub =>
     popReply s .publish id (fun s r => settle s r.fut (.value (.publication pub)))
   | .subscribed id sub =>
@@ -700,21 +1030,14 @@ def onEstablished (s : Sess) (beh : List HAct) : InMsg → Sess × List SOut
     | none => (s, [.raise_ .protocolError])
     | some r =>
       if progress then
-        -- `if call_request.options.on_progress:` — AttributeError when the call was made without options
-        if !r.hasOpts then (s, [.raise_ .attributeError]) else
+        -- `if call_request.options and call_request.options.on_progress:` (args / kwargs defaulted to () / {})
         match r.onProgress with
         | none => (s, [])
         | some h =>
-          if r.details then
-            -- `types.CallResult(*msg.args, …, **msg.kwargs)`: raises TypeError when either is None (F10)
-            match p.args, p.kwargs with
-            | some a, some k =>
-              let r1 := runAct s none (beh.headD {})
-              (r1.1, .progress h (.result a k) :: r1.2)
-            | _, _ => (s, [.raise_ .typeError])
-          else
-            let r1 := runAct s none (beh.headD {})
-            (r1.1, .progress h (.plain (p.args.getD []) (p.kwargs.getD [])) :: r1.2)
+          -- `details=True`: `on_progress(CallResult(*args, **kw))`, else `on_progress(*args, **kw)`
+          let r1 := runAct s none (beh.headD {})
+          (r1.1, .progress h (if r.details then .result (p.args.getD []) (p.kwargs.getD [])
+                              else .plain (p.args.getD []) (p.kwargs.getD [])) :: r1.2)
       else
         let s := s.setTbl .call (adel id s.tCall)
         if s.called r.fut then (s, []) else settle s r.fut (.value (resultValue r.details p))
@@ -743,22 +1066,33 @@ def onEstablished (s : Sess) (beh : List HAct) : InMsg → Sess × List SOut
       | some r =>
         let s := s.setTbl k (adel id (s.tbl k))
         if s.called r.fut then (s, []) else settle s r.fut (.error uri (p.args.getD []) (p.kwargs.getD []))
-  | .invocation id reg _ =>
-    -- STUB (C10): only the two protocol checks
-    if (alookup id s.invs).isSome then (s, [.raise_ .protocolError])
-    else if (alookup reg s.regs).isNone then (s, [.raise_ .protocolError])
-    else (s, [.unmodelled])
-  | .interrupt _ => (s, [])      -- STUB (C10)
+  | .invocation req reg p rp => onInvocation s beh req reg p rp
+  | .interrupt req =>
+    -- `txaio.cancel(on_reply)`: a pending result is cancelled (its errback sends the ERROR); a completed one is not
+    settleInv s req (.raised .cancelled)
   | .welcome _ | .abort | .challenge | .other => (s, [.raise_ .protocolError])
+
+/-- the branch `if self._session_id is None`: "the first message must be WELCOME, ABORT or CHALLENGE" — nothing
+records that one of them has already been handled. `beh` = `[onWelcome, onJoin]` / `[onLeave]` / `[onChallenge, onLeave]` -/
+def preSession (s : Sess) (beh : List HAct) : InMsg → Sess × List SOut
+  | .welcome sid =>
+    let a := beh.headD {}
+    let r1 := runHook s .onWelcome 0 a (fun s => (s, []))
+    let res : WRes := if a.raises then .raised else if a.ret = .unit then .ok else .deny
+    let r2 := defer r1.1 (.welcome1 sid res (beh.tail.headD {}))
+    (r2.1, r1.2 ++ r2.2)
+  | .abort => leaveHook s 2 (beh.headD {})
+  | .challenge =>
+    let a := beh.headD {}
+    let r1 := runHook s .onChallenge 0 a (fun s => (s, []))
+    let res : CRes := if a.raises then .raised else if a.ret = .unit then .none_ else .sig
+    let r2 := defer r1.1 (.challenge1 res (beh.tail.headD {}))
+    (r2.1, r1.2 ++ r2.2)
+  | _ => (s, [.raise_ .protocolError])
 
 def onMessage (s : Sess) (m : InMsg) (beh : List HAct) : Sess × List SOut :=
   match s.sessionId with
-  | none =>
-    -- STUB (C06): only WELCOME is followed; the callbacks around it are not modelled
-    match m with
-    | .welcome sid => ({ s with sessionId := some sid }, [])
-    | .abort | .challenge => (s, [.unmodelled])
-    | _ => (s, [.raise_ .protocolError])
+  | none => preSession s beh m
   | some _ => onEstablished s beh m
 
 /-! ## events -/
@@ -766,23 +1100,56 @@ def onMessage (s : Sess) (m : InMsg) (beh : List HAct) : Sess × List SOut :=
 inductive SEv
   | api (a : Api)
   | msg (m : InMsg) (beh : List HAct)
-  | pump                -- the event loop runs the queued callbacks (no-op on Twisted)
-  | open_               -- STUB `onOpen(transport)` with the default `onConnect` (= `join`)
-  | closed              -- STUB `onClose`
+  | pump                              -- the event loop runs until it is idle (no-op on Twisted)
+  | tick                              -- exactly one loop iteration (no-op on Twisted)
+  | open_ (acts : List HAct)          -- `onOpen(transport)`; `acts = [onConnect]`
+  | closed (acts : List HAct)         -- `onClose(wasClean)`; `acts = [onLeave, onDisconnect]`
+  | fault (l : List SendOut)          -- environment: the outcomes of the next `send()` calls on reply paths
+  | resolve (req : ReqId) (r : Ret)   -- user code completes the pending result of invocation `req`
+  | fail (req : ReqId) (e : ExcK)     -- … or fails it
+  | lateProgress (req : ReqId) (v : Val)   -- user code calls a `details.progress` it kept (U2)
 deriving DecidableEq, Repr
+
+/-- one loop iteration: what was queued when it started, in order; what these callbacks queue waits for the next -/
+def tickList : Sess → List SOut → Sess × List SOut
+  | s, [] => (s, [])
+  | s, .later k :: rest =>
+    let r1 := runCont s k
+    let r2 := tickList r1.1 rest
+    (r2.1, r1.2 ++ r2.2)
+  | s, o :: rest =>
+    let r2 := tickList s rest
+    (r2.1, o :: r2.2)
+
+def tick (s : Sess) : Sess × List SOut := tickList { s with cbq := [] } s.cbq
+
+/-- iterate until the queue is empty (continuations nest three deep at most) -/
+def drain : Nat → Sess → Sess × List SOut
+  | 0, s => (s, [])
+  | n + 1, s =>
+    if s.cbq.isEmpty then (s, []) else
+    let r1 := tick s
+    let r2 := drain n r1.1
+    (r2.1, r1.2 ++ r2.2)
+
+/-- user code calls a `details.progress` callable it kept from invocation `req` (nothing ties it to `_invocations`) -/
+def lateProgress (s : Sess) (req : ReqId) (v : Val) : Sess × List SOut :=
+  if !s.progs.contains req then (s, [.unmodelled]) else
+  if !s.transport then (s, [.caught .attributeError]) else
+  let r := progressSend s req v
+  (r.1, r.2.1 ++ (if r.2.2 = .ok then [] else [.caught r.2.2.exc]))
 
 def step (s : Sess) : SEv → Sess × List SOut
   | .api a => apiStep s a
   | .msg m beh => onMessage s m beh
-  | .pump => ({ s with cbq := [] }, s.cbq)
-  | .open_ =>
-    let r := emitCb { s with transport := true, goodbyeSent := false } (.send { typ := .hello })
-    r
-  | .closed =>
-    let s := { s with transport := false }
-    match s.sessionId with
-    | some _ => onLeaveDefault { s with sessionId := none } 1
-    | none => rejectList s.clearTables (.closed 1) s.outstanding
+  | .pump => drain 8 s
+  | .tick => tick s
+  | .open_ acts => onOpen s acts
+  | .closed acts => onClose s acts
+  | .fault l => ({ s with faults := s.faults ++ l }, [])
+  | .resolve req r => settleInv s req (retOut r)
+  | .fail req e => settleInv s req (.raised e)
+  | .lateProgress req v => lateProgress s req v
 
 /-- run a history; one output list per event -/
 def run (s : Sess) : List SEv → Sess × List (List SOut)
